@@ -70,9 +70,12 @@ def job_subscript(ctx, L, rule="R-JOB-SUBSCRIPT"):
     """no unprotected T[k] / del T[k] in the job thread on a table another role deletes from"""
     tables = ["_rcv_buffer", "_snd_buffer"] + (["_multi_pg_snd_buffer"] if L.fd else [])
     deleters = {t: [] for t in tables}
+    from .common import owners
     for fn in ctx.prog.all_funcs():
         if fn.cls is None or fn.cls.name != L.cls or fn is L.job:
             continue
+        if owners(ctx, fn) <= {L.job.qual}:
+            continue   # a helper reached from the job thread only
         for n in ast.walk(fn.node):
             if isinstance(n, ast.Delete):
                 for t in n.targets:
@@ -204,9 +207,21 @@ def idx(ctx, L, rule="R-IDX"):
             ctx.unknown(rule, "pool list of %s not found" % put)
             continue
         n = lens[lst]
-        for s in ctx.cg.callers_of(p.qual):
-            arg = s.sym[2][0] if s.sym[2] else None
-            inst = "22 %s index at call in %s [%s]" % (put, s.caller.name, pretty(arg)[:60])
+        from .common import is_helper
+        sites = []
+        seen_nodes = set()
+        for fn in P.all_funcs():
+            if fn.cls is None or fn.cls.name != L.cls or is_helper(fn) or fn.name in PUTS or fn.name == "__init__":
+                continue
+            rs = scan_all_tables(ctx, L) if fn is L.job else runs(ctx, fn)
+            for r in rs:
+                for i, e in L.calls(r, put):
+                    if id(e.node) not in seen_nodes:
+                        seen_nodes.add(id(e.node))
+                        sites.append((fn, e))
+        for caller, e in sites:
+            arg = e.value[2][0] if e.value[2] else None
+            inst = "22 %s index at call in %s [%s]" % (put, caller.name, pretty(arg)[:60])
             # classify the argument
             rng = None
             if arg is not None and arg[0] == "sub" and arg[2] == ("c", "session") and root_field(arg) == "_snd_buffer":
@@ -217,10 +232,10 @@ def idx(ctx, L, rule="R-IDX"):
                 m = cval(arg[2]) if is_const(arg[2]) else cval(arg[3])
                 rng = (0, m)
             if rng is None:
-                ctx.violated(rule, s.caller, inst, "index %s of the %d-entry pool list is not bounded" % (pretty(arg), n), s.node)
+                ctx.violated(rule, caller, inst, "index %s of the %d-entry pool list is not bounded" % (pretty(arg), n), e.node)
             elif rng[1] >= n:
-                ctx.violated(rule, s.caller, inst, "index ranges over [%d,%d] (a session number taken from a received frame) but the pool "
-                             "list has %d entries: IndexError%s" % (rng[0], rng[1], n, " in the job thread" if s.caller is L.job else ""), s.node)
+                ctx.violated(rule, caller, inst, "index ranges over [%d,%d] (a session number taken from a received frame) but the pool "
+                             "list has %d entries: IndexError%s" % (rng[0], rng[1], n, " in the job thread" if caller is L.job else ""), e.node)
             else:
                 ctx.holds(rule, inst)
     # LUT subscripts
@@ -249,6 +264,13 @@ def idx(ctx, L, rule="R-IDX"):
                                 ctx.violated(rule, fn, inst, "index %s can reach %s but the table has %d entries" % (pretty(x[2]), hi, lens.get("_LUT_FD_DLC", 0)), rec.ev.node)
                             else:
                                 ctx.holds(rule, inst)
+
+
+def scan_all_tables(ctx, L):
+    out = []
+    for t in ("_rcv_buffer", "_snd_buffer") + (("_multi_pg_snd_buffer",) if L.fd else ()):
+        out.extend(scan_runs(ctx, L, t))
+    return out
 
 
 def lut_table(ctx, L):
